@@ -169,3 +169,70 @@ func ErrClass(err error) string {
 	}
 	return "err:other:" + s
 }
+
+// FakeProxy is the scripted proxy side of one control websocket: a real Endpoint dials it.
+type FakeProxy struct {
+	srv     *httptest.Server
+	connCh  chan *websocket.Conn
+	Conn    *websocket.Conn // proxy side
+	EP      *sniproxy.Endpoint
+	Replies chan []byte // reply frames written by the endpoint
+}
+
+// NewFakeProxy starts a websocket server and lets a real endpoint (legacy mode) dial it.
+func NewFakeProxy() (*FakeProxy, error) {
+	p := &FakeProxy{connCh: make(chan *websocket.Conn, 1), Replies: make(chan []byte, 1024)}
+	up := &websocket.Upgrader{ReadBufferSize: 64 << 10, WriteBufferSize: 64 << 10}
+	p.srv = httptest.NewServer(http.HandlerFunc(func(w http.ResponseWriter, r *http.Request) {
+		c, err := up.Upgrade(w, r, nil)
+		if err != nil {
+			return
+		}
+		p.connCh <- c
+	}))
+	ep, err := sniproxy.Dial(context.Background(), &sniproxy.StaticRouter{Host: strings.TrimPrefix(p.srv.URL, "http://")},
+		&sniproxy.DialOption{WithoutTLS: true, TunnelOptions: &sniproxy.Options{}})
+	if err != nil {
+		p.srv.Close()
+		return nil, err
+	}
+	p.EP = ep
+	select {
+	case p.Conn = <-p.connCh:
+	case <-time.After(5 * time.Second):
+		return nil, errors.New("fake proxy: no connection")
+	}
+	go func() {
+		defer close(p.Replies)
+		for {
+			_, bs, err := p.Conn.ReadMessage()
+			if err != nil {
+				return
+			}
+			p.Replies <- bs
+		}
+	}()
+	return p, nil
+}
+
+// Request writes one request frame id | typ | body.
+func (p *FakeProxy) Request(id uint64, typ uint8, body []byte) error {
+	return p.Conn.WriteMessage(websocket.BinaryMessage, append(append(U64(id), typ), body...))
+}
+
+// NextReply waits for the next reply frame.
+func (p *FakeProxy) NextReply(d time.Duration) ([]byte, bool) {
+	select {
+	case r, ok := <-p.Replies:
+		return r, ok
+	case <-time.After(d):
+		return nil, false
+	}
+}
+
+// Close releases the server.
+func (p *FakeProxy) Close() {
+	p.Conn.UnderlyingConn().Close()
+	p.srv.CloseClientConnections()
+	go p.srv.Close()
+}
